@@ -147,17 +147,18 @@ def explore_lines(cx, n):
                 "LevelSet": ("0.3", "1", "0", "0"), "Scale": ("1", "2", "3", "0"), "Rotate": ("10", "20", "30", "0"),
                 "Translate": ("1", "2", "3", "0"), "SetTolerance": ("0.01", "0", "0", "0"), "Simplify": ("0.01", "0", "0", "0"),
                 "Circle": ("1", "0", "0", "8"), "Square": ("1", "2", "0", "0"), "Offset": ("0.1", "2", "0", "4"),
-                "SmoothByNormals": ("0", "0", "0", "0"), "CalculateCurvature": ("0", "0", "0", "1"), "CalculateNormals": ("60", "0", "0", "0")}
+                "SmoothByNormals": ("0", "0", "0", "0"), "CalculateCurvature": ("0", "0", "0", "1"), "CalculateNormals": ("60", "0", "0", "0"),
+                "GetMeshGL": ("0", "0", "0", "0")}
     used = {"Cube": [0, 1, 2], "Cylinder": [0, 1, 2, 3], "Sphere": [0, 3], "Extrude": [0, 1, 2, 3], "Revolve": [0, 3], "Refine": [3],
             "RefineToLength": [0], "RefineToTolerance": [0], "LevelSet": [0, 1, 2], "Scale": [0, 1, 2], "Rotate": [0, 1, 2],
             "Translate": [0, 1, 2], "SetTolerance": [0], "Simplify": [0], "Circle": [0, 3], "Square": [0, 1], "Offset": [0, 1, 3],
-            "SmoothByNormals": [3], "CalculateCurvature": [3], "CalculateNormals": [0, 3]}
+            "SmoothByNormals": [3], "CalculateCurvature": [3], "CalculateNormals": [0, 3], "GetMeshGL": [3]}
     ints = ["0", "-1", "1", "2", "3", "4", "7", "-2147483648", "100", "nan"]
     for what in sorted(defaults):
         for pos in used[what]:
             vals = ints if pos == 3 else special
             if what == "Refine":
-                vals = ["0", "-1", "1", "2", "3", "-2147483648", "nan"]
+                vals = ["0", "-1", "1", "2", "3", "-2147483648", "2147483647", "100000", "nan"]
             for v in vals:
                 args = list(defaults[what]); args[pos] = v
                 out.append(("N%d" % cid, "N N%d %s %s %s %s %s" % (cid, what, args[0], args[1], args[2], args[3]))); cid += 1
@@ -303,8 +304,10 @@ def run(cx):
         cid = cl.split()[1] if cl.startswith("R ") else "?"
         if cl.startswith("R "):        # run_cases keeps only the tail of stderr: re-run alone for the full sanitizer report
             _, rc2, _, err2 = run_isolated(exe, [cl])[0]
-            if rc2 != 0:
-                rc1, err1 = rc2, err2
+            if rc2 in (0, 124):        # not reproduced alone / wall-clock timeout of the runner: machine load, not a finding
+                cx.notes.append("batch failure not reproduced in isolation (rc %s -> %s): %s" % (rc1, rc2, cl[:80]))
+                continue
+            rc1, err1 = rc2, err2
         cx.violation("crash-on-model-safe-record:" + crash_site(err1),
                      "record the model accepts as memory-safe made the implementation die (rc=%s, %s; mutation %s): %s"
                      % (rc1, san_summary(err1), tags.get(cid), err1[-300:]), {"case": cl})
@@ -345,7 +348,7 @@ def run(cx):
         arr = re.match(r"([\w-]+)", pred[cid][1]).group(1)
         key = KEY_OF_ARRAY.get(arr, "oob-" + arr)
         predicted[key] = predicted.get(key, 0) + 1
-        if rc1 != 0:
+        if rc1 not in (0, 124):
             confirmed.setdefault(key, (l, pred[cid][1], san_summary(err1), err1))
     for key, (l, where, summ, err1) in confirmed.items():
         frames = [f.strip() for f in re.findall(r"#\d+ 0x[0-9a-f]+ in ([^\n]*)", err1) if "/src/" in f or "/include/" in f][:3]
@@ -387,9 +390,14 @@ def run(cx):
         eo += out1
         if rc1 != 0:
             ecr.append((l, rc1, err1))
-    o2, c2 = vp.run_cases(exe, [l for _, l in ex if not l.startswith("N ")], kl2, ko2, timeout=1500, max_restarts=8, env=env)
+    o2, c2 = vp.run_cases(exe, [l for _, l in ex if not l.startswith("N ")], kl2, ko2, timeout=1500, max_restarts=40, env=env)
     eo += o2
-    ecr += c2
+    for cl, rc1, err1 in c2:           # confirm every batch failure alone, with the full report
+        if cl.startswith("<"):
+            continue
+        _, rc2, _, err2 = run_isolated(exe, [cl])[0]
+        if rc2 not in (0, 124):
+            ecr.append((cl, rc2, err2))
     ekeys = {}
     inconclusive = [c for c, r, e in ecr if r == 124]
     cx.cov["exploration_wall_timeouts_ignored"] = len(inconclusive)
@@ -398,7 +406,8 @@ def run(cx):
             continue        # wall-clock timeout of the runner (machine load); the CPU-time watchdog (SIGPROF, rc -27) decides hangs
         kind = cl.split()[0]
         what = cl.split()[2] if kind == "N" else {"P": "polygons", "H": "hull-points", "B": "obj-text"}.get(kind, kind)
-        ekeys.setdefault("explore-" + what, []).append((cl, rc1, err1))
+        args = "_".join(cl.split()[3:7]) if kind == "N" else "case_" + cl.split()[1]
+        ekeys.setdefault("explore-%s:%s@%s" % (what, crash_site(err1), args if kind == "N" else ""), []).append((cl, rc1, err1))
     for key, lst in sorted(ekeys.items()):
         cl, rc1, err1 = lst[0]
         frames = [f.strip() for f in re.findall(r"(/repo/[^\n]*runtime error[^\n]*|#\d+ 0x[0-9a-f]+ in [^\n]*/src/[^\n]*)", err1)][:2]
